@@ -191,6 +191,13 @@ class C15(Prop):
             yield self.fill_case(rng)
         for i in range(30 if quick else 300):
             yield self.tool_case(rng, big=(i % (30 if quick else 50) == 7))
+        # more inputs than the descriptor budget, merged in chunks (976 + the rest): a chunk whose partial sum
+        # lies at or below the threshold while the total lies above it (clip/adjust/threshold belong to the total)
+        outs = [[b"out.bedGraph", []], [b"out.bw", []]]
+        for (v0, rest, thr) in ((1, [[5, 15, 1]], 8), (8, [[0, 10, -32]], 0), (8, [[0, 10, -32], [20, 30, 4]], 4)) if quick else \
+                               ((1, [[5, 15, 1]], 8), (8, [[0, 10, -32]], 0), (8, [[0, 10, -32], [20, 30, 4]], 4), (2, [[0, 4, 2]], 8), (8, [[3, 9, -24]], -16)):
+            files = [[979, [[b"chr1", 1000, [[0, 10, v0]]]]], [1, [[b"chr1", 1000, rest]]]]
+            yield sx([4, files, [thr, [], []], outs]), ["tool", "inputs>=976", "chunk-partial-below-threshold"]
 
     def nontrivial(self, case, tags):
         return "(0 " in case
